@@ -164,6 +164,44 @@ func main() {
 				vectors = append(vectors, vec)
 			}
 		} else {
+			if len(idx) <= 11 {
+				// every accepted/absent subset
+				for m := 0; m < 1<<len(idx); m++ {
+					vec := make([]string, len(idx))
+					for j := range vec {
+						vec[j] = "absent"
+						if m&(1<<j) != 0 {
+							vec[j] = "ok"
+						}
+					}
+					vectors = append(vectors, vec)
+				}
+			} else {
+				// every vector with at most 3 accepted schemes, and every vector with at most 2 not accepted
+				for _, pr := range [][2]string{{"absent", "ok"}, {"ok", "absent"}, {"ok", "skip"}} {
+					lim := 3
+					if pr[0] == "ok" {
+						lim = 2
+					}
+					var rec func(from, left int, vec []string)
+					rec = func(from, left int, vec []string) {
+						vectors = append(vectors, append([]string{}, vec...))
+						if left == 0 {
+							return
+						}
+						for j := from; j < len(vec); j++ {
+							vec[j] = pr[1]
+							rec(j+1, left-1, vec)
+							vec[j] = pr[0]
+						}
+					}
+					vec := make([]string, len(idx))
+					for j := range vec {
+						vec[j] = pr[0]
+					}
+					rec(0, lim, vec)
+				}
+			}
 			for _, baseO := range []string{"absent", "ok", "skip"} {
 				for i := range idx {
 					for _, o := range outcomes {
